@@ -56,7 +56,11 @@ RULE = ("streams: rules = the ENCODER RULES configured in latex_encoding.py (kee
         "(default options; x c y also under the four other option combinations, in the quick tier one of them per character) then decode, in a field, as a NameParts word and in an "
         "@string: quick = every layout for main and one layout (rotating with the character and the seed) for wide, thorough = every layout and option for both. distinct = "
         "distinct (stream, input); non-trivial = some visited text is changed by the converter or fails")
-TRUSTED = ["pylatexenc (encoder tables, LaTeX parser) is NOT modelled: the round-trip clause of C18 is validated by testing only "
+TRUSTED = ["the encoder RULES of latex_encoding.py are modelled (Model/LatexRules.v, op 121); pylatexenc's default conversion of one "
+           "character enters that model as an oracle (in the proofs: an arbitrary function enc_char; in the correspondence: a table "
+           "observed on a pristine UnicodeToLatexEncoder for the characters of each text), as does Unicode NFC normalisation (the "
+           "harness hands the model the normalised text)",
+           "pylatexenc (encoder tables, LaTeX parser) is NOT modelled: the round-trip clause of C18 is validated by testing only "
            "(stream roundtrip) - the proof-level claim is PARTIAL: scope, types, error containment and the conditional round trip "
            "(C18_roundtrip_conditional: IF dec (enc s) = s on the alphabet THEN the two middlewares compose to the identity)",
            "the executable stub converters of Model/LatexWrap.v and the stub objects in harness/props/c18.py implement the same "
